@@ -5,6 +5,8 @@ CONSTANTS
   MaxRot = 2
   Dedup = TRUE
   Recheck = TRUE
+  UseTree = TRUE
+  TreeAtomic = TRUE
   ReaderFallback = FALSE
 INVARIANTS NoDamage
 CHECK_DEADLOCK FALSE
